@@ -53,6 +53,7 @@ func TestCheck(t *testing.T) {
 		"one batch commit is atomic (backend contract, C15); a crash is modelled between commits of the db.KeyValueStore seam (faultdb over db/memory)",
 		"old-layout databases are produced with the frozen legacy writer migration/blocktransactions/txlayout (TransactionLayoutPerTx) and commitments without StateDiffLength",
 		"blocktransactions commit orders: each ingest range in its own batch, all orders; batches holding several ranges produce a subset of these crash images",
+		"a transient read fault (the k-th point read on the store fails once) is injected at every point read of the first process start under the canonical commit order; the run then dies with an error and every image it passed is a start state",
 		"cancel-at-read injections race with the source goroutine (free-running after the injection); outcomes are checked, not the exact emission count",
 		"statedifflength: the assignment of blocks to the per-worker batches follows two release policies (lowest / highest parked block first), not all assignments; its writes are per-block idempotent",
 		"part b runs the real historyprunner (retainedBlocks as configured, min-age 0, L1 head = chain tip, or lagging it on the chains that say so) on the chains named 'prune-mode toggled', where each process start chooses off / on with the chain's retained value R / on with a window longer than the chain (len+100); other retained values (cutoff moving up or down by a few blocks between starts) are not enumerated; headstate is a disabled placeholder (its flag combinations are covered on the runner in part a)",
